@@ -8,8 +8,8 @@ src=$srcroot/$id
 wt=/tmp/seed/verify
 out=/verif/seeded/${id}_${x}_$suffix
 mkdir -p $out /tmp/h2out
-git -C $wt checkout -q -- . ; rm -f $wt/tests/demo_seed.rs
-git -C $wt apply $src/$x.patch.diff || { echo "$id $x patch does not apply"; exit 2; }
+git -C $wt reset -q --hard; rm -f $wt/tests/demo_seed.rs
+git -C $wt apply $src/$x.patch.diff 2>/dev/null || git -C $wt apply -C1 $src/$x.patch.diff 2>/dev/null || git -C $wt apply --3way $src/$x.patch.diff 2>/dev/null || { echo "$id $x patch does not apply"; exit 2; }
 suite=$(cd $wt && cargo test --workspace --offline 2>&1 | grep -E "^test result" | tr '\n' ' ')
 suite_ok=$(echo "$suite" | grep -c "FAILED")
 cp $src/$x.demo.rs $wt/tests/demo_seed.rs
@@ -27,11 +27,11 @@ if (cd /tmp/h2 && cargo build --release --offline -q 2>/tmp/h2/build.log); then
 else
   results="harness-build-failed"
 fi
-git -C $wt checkout -q -- src
+git -C $wt reset -q --hard
 cp $src/$x.demo.rs $wt/tests/demo_seed.rs
 demo_without=$(cd $wt && cargo test --offline --test demo_seed 2>&1 | grep -E "^test result" | tr '\n' ' ')
 rm -f $wt/tests/demo_seed.rs
-git -C $wt checkout -q -- .
+git -C $wt reset -q --hard
 cp $src/$x.patch.diff $out/patch.diff; cp $src/$x.demo.rs $out/demo.rs; cp $src/$x.notes.md $out/notes.md 2>/dev/null
 python3 - "$id" "$x" "$suite" "$suite_ok" "$demo_with" "$demo_without" "$results" "$src" "$out" <<'PY'
 import json,sys
